@@ -107,7 +107,18 @@ Definition o_step (shared : bool) (s : ostate) (o : sop) (out : list tok) : osta
   | SWrite v => (keep (Some v) (o_shown s) (o_above s) (o_pending s) (o_alt s), [])
   | SFlush =>
     match o_latest s with
-    | None => (keep None (o_shown s) (o_above s) (o_pending s) (o_alt s), [])
+    | None =>
+      match o_pending s, o_shown s, out, o_alt s with
+      | _ :: _, Some v, _ :: _, false =>
+        (* nothing was written since the last flush, yet this flush painted (a repaint was due): the queued printed
+           lines went out with it, above the view it displays *)
+        let ab := o_above s ++ o_pending s in
+        match shows_inline t v with
+        | Some above => (keep None (Some v) ab [] false, if rows_eqb above ab then [] else [2%nat])
+        | None => (keep None (Some v) ab [] false, [1%nat])
+        end
+      | _, _, _, _ => (keep None (o_shown s) (o_above s) (o_pending s) (o_alt s), [])
+      end
     | Some v =>
       if o_alt s then (keep None (Some v) (o_above s) (o_pending s) true, if shows_alt t v then [] else [1%nat])
       else
